@@ -4,9 +4,7 @@ import (
 	"fmt"
 
 	"github.com/tuneinsight/lattigo/v6/core/rgsw"
-	"github.com/tuneinsight/lattigo/v6/core/rlwe"
 	"github.com/tuneinsight/lattigo/v6/ring"
-	"github.com/tuneinsight/lattigo/v6/ring/ringqp"
 
 	"verif/harness/eng"
 	"verif/harness/obs"
@@ -227,6 +225,3 @@ func runAlg(c *eng.Ctx, d algDesc) {
 		}
 	}
 }
-
-var _ = ringqp.Poly{}
-var _ = rlwe.Plaintext{}
